@@ -58,6 +58,47 @@ def reachable(F, roots):
     return seen, edges
 
 
+def insertion_order(ck, F, prefix):
+    """Sequence implementations append at the end and index from the beginning; borrowed by C07 (entry order of a scope)."""
+    # ---------------------------------------------------------------- sequences in insertion order
+    R4 = ck.rule(f'{prefix}.insertion-order', 'sequence implementations append at the end and index from the beginning', floor=4)
+    for tmpl, grow in (('ipr::impl::obj_list', 'emplace_after'), ('ipr::impl::obj_sequence', 'emplace_back'), ('ipr::impl::ref_sequence', None)):
+        insts = [n for n, r in F.rec.items() if r.get('template') == tmpl]
+        if not insts:
+            raise AnalysisBroken(f'no instantiation of {tmpl}')
+        for cls in sorted(insts)[:40]:
+            pbs = [f for f in F.fns_in(cls) if f['name'] == 'push_back']
+            # the insertion point of obj_list: its own data member of the list's iterator type (whatever it is called)
+            marks = {fl['name'] for fl in F.rec[cls]['fields'] if 'iterator' in fl['t']}
+            for f in pbs:
+                names = [(n.get('callee') or {}).get('name') for n in walk(f['body']) if n.get('k') == 'call']
+                good = grow in names and not any(x in names for x in ('emplace_front', 'push_front', 'insert', 'emplace'))
+                if grow == 'emplace_after':
+                    # mark = emplace_after(mark, ...): the insertion point is the last element inserted
+                    def mentions_mark(x):
+                        return any(m.get('k') == 'member' and m.get('name') in marks for m in walk(x))
+                    asg = [n for n in walk(f['body']) if (n.get('k') == 'call' and (n.get('callee') or {}).get('name') == 'operator='
+                                                          and mentions_mark(n.get('obj'))) or (n.get('k') == 'binop' and n.get('op') == '=' and mentions_mark(n.get('l')))]
+                    ea = [n for n in walk(f['body']) if n.get('k') == 'call' and (n.get('callee') or {}).get('name') == 'emplace_after']
+                    good = good and bool(asg) and len(ea) == 1 and mentions_mark((ea[0].get('args') or [{}])[0])
+                ck.check(R4, contracts.short(cls) + '::push_back/' + str(len(f['params'])), good,
+                         f'{f["id"]} does not append at the end ({names})', loc=f['loc'], fn=f['id'])
+    for cls in [n for n, r in F.rec.items() if r.get('template') == 'ipr::impl::obj_list']:
+        ctor = [f for f in F.fns_in(cls) if f.get('ctor') and not f.get('copy')]
+        marks = {fl['name'] for fl in F.rec[cls]['fields'] if 'iterator' in fl['t']}
+        for f in ctor:
+            good = any(i['kind'] == 'member' and i['name'] in marks and 'before_begin' in str(i['e']) for i in f.get('inits', [])) \
+                or any(n.get('k') == 'binop' and n.get('op') == '=' and strip_casts(n.get('l') or {}).get('name') in marks and 'before_begin' in str(n.get('r'))
+                       for n in walk(f.get('body'))) \
+                or any(fl['name'] in marks and 'before_begin' in str(fl.get('init')) for fl in F.rec[cls]['fields'])
+            ck.check(R4, contracts.short(cls) + '::ctor', good, f'{f["id"]} does not start the insertion mark before the first element', loc=f['loc'], fn=f['id'])
+    # ref_sequence exposes vector::push_back (append) and at()
+    rs = F.need_rec('ipr::impl::ref_sequence<ipr::Expr>')
+    ck.check(R4, 'ref_sequence storage', any(b['name'].startswith('std::vector<const void *') for b in rs['bases']),
+             'ref_sequence is no longer backed by a vector (append + positional at)', loc=rs['loc'])
+
+
+
 def run(ck, F):
     ck.explanation = (
         'Byte identity of two runs is a statement about pairs of executions and is not decided.  Decided: the '
@@ -193,42 +234,7 @@ def run(ck, F):
                                    f'{[fl["name"] for fl in F.rec[dt]["fields"]]} are ignored')
         ck.check(R2c, f['id'], not bad, f'{f["id"]}: ' + '; '.join(sorted(set(bad))), loc=f['loc'], fn=f['id'])
 
-    # ---------------------------------------------------------------- sequences in insertion order
-    R4 = ck.rule('C17.insertion-order', 'sequence implementations append at the end and index from the beginning', floor=4)
-    for tmpl, grow in (('ipr::impl::obj_list', 'emplace_after'), ('ipr::impl::obj_sequence', 'emplace_back'), ('ipr::impl::ref_sequence', None)):
-        insts = [n for n, r in F.rec.items() if r.get('template') == tmpl]
-        if not insts:
-            raise AnalysisBroken(f'no instantiation of {tmpl}')
-        for cls in sorted(insts)[:40]:
-            pbs = [f for f in F.fns_in(cls) if f['name'] == 'push_back']
-            # the insertion point of obj_list: its own data member of the list's iterator type (whatever it is called)
-            marks = {fl['name'] for fl in F.rec[cls]['fields'] if 'iterator' in fl['t']}
-            for f in pbs:
-                names = [(n.get('callee') or {}).get('name') for n in walk(f['body']) if n.get('k') == 'call']
-                good = grow in names and not any(x in names for x in ('emplace_front', 'push_front', 'insert', 'emplace'))
-                if grow == 'emplace_after':
-                    # mark = emplace_after(mark, ...): the insertion point is the last element inserted
-                    def mentions_mark(x):
-                        return any(m.get('k') == 'member' and m.get('name') in marks for m in walk(x))
-                    asg = [n for n in walk(f['body']) if (n.get('k') == 'call' and (n.get('callee') or {}).get('name') == 'operator='
-                                                          and mentions_mark(n.get('obj'))) or (n.get('k') == 'binop' and n.get('op') == '=' and mentions_mark(n.get('l')))]
-                    ea = [n for n in walk(f['body']) if n.get('k') == 'call' and (n.get('callee') or {}).get('name') == 'emplace_after']
-                    good = good and bool(asg) and len(ea) == 1 and mentions_mark((ea[0].get('args') or [{}])[0])
-                ck.check(R4, contracts.short(cls) + '::push_back/' + str(len(f['params'])), good,
-                         f'{f["id"]} does not append at the end ({names})', loc=f['loc'], fn=f['id'])
-    for cls in [n for n, r in F.rec.items() if r.get('template') == 'ipr::impl::obj_list']:
-        ctor = [f for f in F.fns_in(cls) if f.get('ctor') and not f.get('copy')]
-        marks = {fl['name'] for fl in F.rec[cls]['fields'] if 'iterator' in fl['t']}
-        for f in ctor:
-            good = any(i['kind'] == 'member' and i['name'] in marks and 'before_begin' in str(i['e']) for i in f.get('inits', [])) \
-                or any(n.get('k') == 'binop' and n.get('op') == '=' and strip_casts(n.get('l') or {}).get('name') in marks and 'before_begin' in str(n.get('r'))
-                       for n in walk(f.get('body'))) \
-                or any(fl['name'] in marks and 'before_begin' in str(fl.get('init')) for fl in F.rec[cls]['fields'])
-            ck.check(R4, contracts.short(cls) + '::ctor', good, f'{f["id"]} does not start the insertion mark before the first element', loc=f['loc'], fn=f['id'])
-    # ref_sequence exposes vector::push_back (append) and at()
-    rs = F.need_rec('ipr::impl::ref_sequence<ipr::Expr>')
-    ck.check(R4, 'ref_sequence storage', any(b['name'].startswith('std::vector<const void *') for b in rs['bases']),
-             'ref_sequence is no longer backed by a vector (append + positional at)', loc=rs['loc'])
+    insertion_order(ck, F, 'C17')
 
     # ---------------------------------------------------------------- printer state / graph untouched
     R5 = ck.rule('C17.printer-state', 'the Printer constructor initialises every data member; printer functions never cast away '
